@@ -14,7 +14,9 @@ func (v *Verifier) report(prop, tier string, seed int, reps []*FuncReport, obs, 
 	known := loadKnown(v.VerifDir)
 	knownBy := map[string]KnownFinding{}
 	for _, k := range known {
-		if k.Property == prop && k.Status == "known" {
+		// a recorded finding is keyed by its obligation; a function under contract for
+		// several properties raises the same obligation in each of their checks
+		if k.Status == "known" {
 			knownBy[k.Obligation] = k
 		}
 	}
